@@ -423,9 +423,14 @@ def streaming(ctx):
                       'lmethod.get_knee', 'dfdt.get_knee', 'linear_fit.linear_fit_points', 'linear_fit.r2_points',
                       'convex_hull.graham_scan_lower', 'knee_ranking.rank', 'linear_fit.linear_fit', 'metrics.rmse'],
                      rng.randint(1, 4))
+    recycle = rng.random() < 0.4
     for rnd in range(rng.randint(2, 4)):
         src = rng.choice(same)
-        f = p.call('caller.fill', R(buf), P(src), F(rng.choice([1.0, 1.0, 0.5, 2.0, 3.0])), rng.random() < 0.3)
+        if recycle:
+            # a fresh array per trace, dropped after use: the allocator hands the same address to the next one
+            f = p.call('caller.fresh', P(src), F(rng.choice([1.0, 1.0, 0.5, 2.0, 3.0])), rng.random() < 0.3)
+        else:
+            f = p.call('caller.fill', R(buf), P(src), F(rng.choice([1.0, 1.0, 0.5, 2.0, 3.0])), rng.random() < 0.3)
         p.steps[-1]['nodup'] = True
         b = R(f)
         for fn in fns:
@@ -444,6 +449,9 @@ def streaming(ctx):
             p.steps[-1]['nodup'] = True
             if rnd >= 1:          # the first fill meets a fresh buffer: nothing stale can be seen yet
                 p.steps[-1]['probe'] = True
+        if recycle:
+            p.call('caller.drop', f)
+            p.steps[-1]['nodup'] = True
     return p.out()
 
 
